@@ -62,12 +62,16 @@ Print Assumptions C02_wire_wellformed_with_prepared.
 Theorem C02_mask_source_is_crypto_rand :
   f_mask_rand_is_crypto_rand = true /\ f_new_mask_key_reads_mask_rand = true.
 Proof. split; reflexivity. Qed.
-(* PARTIAL: (1) "payloads reproduce exactly what the application wrote, one wire message per API
-   message, in call order" is decided by the correspondence check (Spec decoder + Spec inflate on
-   the real wire against the abstract writer of Spec/WriterSpec.v), not yet by a theorem; (2) RSV1
-   is proved to occur only where allowed, not "exactly when compression was enabled at
-   NextWriter"; (3) every frame that reaches the transport uses the next key of the oracle (by
-   construction of keyed_write); the cryptographic quality of crypto/rand cannot be a theorem. *)
+(* PARTIAL (as far as this block goes; (1) and (2) are closed by the theorems below): (1) "payloads
+   reproduce exactly what the application wrote, one wire message per API message, in call order"
+   and (2) "RSV1 exactly when compression was enabled at NextWriter" are C02_wire_events_compressed
+   / C02_wire_events_prepared below (without compression also Props/C01); what remains an oracle
+   is compress/flate itself: a compressed payload is proved to be the oracle's deflate stream
+   minus its last four octets, and that the stream inflates to the plaintext is checked by the
+   Spec inflate on every compressed case of the correspondence run; (3) every frame that reaches
+   the transport uses the next key of the oracle (by construction of keyed_write); the
+   cryptographic quality of crypto/rand cannot be a theorem; (4) the events theorems are for
+   fault-free runs (faults: Props/C10). *)
 
 (* ---- second half of C02 WITH negotiated compression (closes (1) and (2) above up to the flate
    oracle): Proofs/WriterEventsZ.v ----
